@@ -20,7 +20,18 @@ package lnwire
 //     for slices and maps; covers ExtraData / CustomRecords / unknown
 //     records).
 //
-// Diagnostics: fixpoint_value_repr (m1 vs m2 differ structurally although
+//   - ext_accept_implies_canonical: the TLV extension E of a valid encoding
+//     F||E is mutated in isolation; if ReadMessage accepts F||E' then an
+//     independent BOLT-1 walker (strictly increasing types, minimal BigSize
+//     type and length, each length within the remaining bytes, stream fully
+//     consumed) must accept E'. key = decoded message type + violated rule
+//     ["A TLV stream is accepted exactly when it is canonical", applied to the
+//     extension stream of lnwire messages]. Diagnostic only for the message
+//     types listed in verifC10OpaqueExt (extension kept as opaque bytes).
+//
+// Diagnostics: ext_reencode_reproduces_input (accepted + canonical extension
+// must re-encode to the input; NOT silent on the pinned tree: typed-record
+// messages drop unknown extension records), fixpoint_value_repr (m1 vs m2 differ structurally although
 // their encodings are identical), lossless_strict_deepequal, alloc > 4 MiB,
 // generator failures.
 
@@ -29,8 +40,10 @@ import (
 	"compress/zlib"
 	"encoding/binary"
 	"fmt"
+	"io"
 	"net"
 	"reflect"
+	"runtime"
 	"runtime/metrics"
 	"sort"
 	"strings"
@@ -728,8 +741,9 @@ func verifC10ZlibInput(r *verifRng, tg verifC10Target, b0 []byte) []byte {
 // ------------------------------------------------------------------ oracle
 
 type verifC10H struct {
-	vc *verifCtx
-	i  int
+	vc     *verifCtx
+	i      int
+	attrib map[string]int
 }
 
 func (h *verifC10H) witness(tg verifC10Target, class string, b []byte) map[string]any {
@@ -903,6 +917,413 @@ func (h *verifC10H) checkLossless(tg verifC10Target, v any) (b0 []byte, ok bool)
 	return b0, true
 }
 
+// ------------------------------------------------------------------ extension mutants
+
+// verifC10ExtRec is one record of a TLV extension as seen by the reference
+// walker (offsets relative to the extension start).
+type verifC10ExtRec struct {
+	T      uint64
+	Off    int // start of the type
+	LenOff int // start of the length BigSize
+	ValOff int // start of the value
+	End    int // end of the value
+}
+
+func verifC10WalkBigSize(b []byte) (v uint64, n int, ok bool) {
+	if len(b) == 0 {
+		return 0, 0, false
+	}
+	be := func(p []byte) (x uint64) {
+		for _, c := range p {
+			x = x<<8 | uint64(c)
+		}
+		return
+	}
+	switch d := b[0]; {
+	case d < 0xfd:
+		return uint64(d), 1, true
+	case d == 0xfd:
+		if len(b) < 3 {
+			return 0, 0, false
+		}
+		v = be(b[1:3])
+		return v, 3, v >= 0xfd
+	case d == 0xfe:
+		if len(b) < 5 {
+			return 0, 0, false
+		}
+		v = be(b[1:5])
+		return v, 5, v >= 0x10000
+	default:
+		if len(b) < 9 {
+			return 0, 0, false
+		}
+		v = be(b[1:9])
+		return v, 9, v >= 0x100000000
+	}
+}
+
+// verifC10WalkTLV is the independent reference walker of BOLT-1 TLV streams:
+// strictly increasing types, minimal BigSize for type and length, each length
+// within the remaining bytes, stream fully consumed. rule names the first
+// violated rule.
+func verifC10WalkTLV(e []byte) (recs []verifC10ExtRec, ok bool, rule string) {
+	pos := 0
+	var last uint64
+	for pos < len(e) {
+		t, n, good := verifC10WalkBigSize(e[pos:])
+		if !good {
+			return recs, false, "type-bigsize"
+		}
+		if len(recs) > 0 && t <= last {
+			return recs, false, "order"
+		}
+		rec := verifC10ExtRec{T: t, Off: pos, LenOff: pos + n}
+		l, m, good := verifC10WalkBigSize(e[pos+n:])
+		if !good {
+			return recs, false, "len-bigsize"
+		}
+		rec.ValOff = pos + n + m
+		if l > uint64(len(e)-rec.ValOff) {
+			return recs, false, "len-beyond-end"
+		}
+		rec.End = rec.ValOff + int(l)
+		recs = append(recs, rec)
+		pos = rec.End
+		last = t
+	}
+	return recs, true, ""
+}
+
+// verifC10BoundaryReader finds where a real Decode starts slurping the TLV
+// extension: the offset of the first Read issued from inside io.ReadAll
+// (ExtraOpaqueData.Decode). Used only on valid encodings to build the
+// workload; it is not part of any oracle.
+type verifC10BoundaryReader struct {
+	b        []byte
+	off      int
+	boundary int
+}
+
+func (r *verifC10BoundaryReader) Read(p []byte) (int, error) {
+	if r.boundary < 0 {
+		pcs := make([]uintptr, 24)
+		n := runtime.Callers(2, pcs)
+		frames := runtime.CallersFrames(pcs[:n])
+		for {
+			f, more := frames.Next()
+			if f.Function == "io.ReadAll" {
+				r.boundary = r.off
+				break
+			}
+			if !more {
+				break
+			}
+		}
+	}
+	if r.off >= len(r.b) {
+		return 0, io.EOF
+	}
+	n := copy(p, r.b[r.off:])
+	r.off += n
+	return n, nil
+}
+
+// verifC10ExtBoundary returns the offset of the TLV extension of the valid
+// encoding b0 (fixed part F = b0[:off], extension E = b0[off:]) or -1 when the
+// message has no trailing extension read or E is not a canonical stream.
+func verifC10ExtBoundary(b0 []byte) int {
+	br := &verifC10BoundaryReader{b: b0, boundary: -1}
+	if _, err := ReadMessage(br, 0); err != nil || br.boundary < 2 {
+		return -1
+	}
+	if _, ok, _ := verifC10WalkTLV(b0[br.boundary:]); !ok {
+		return -1
+	}
+	return br.boundary
+}
+
+func verifC10BigSizeWide(v uint64, r *verifRng) []byte {
+	switch {
+	case v < 0xfd:
+		return [][]byte{{0xfd, 0, byte(v)}, {0xfe, 0, 0, 0, byte(v)},
+			{0xff, 0, 0, 0, 0, 0, 0, 0, byte(v)}}[r.Intn(3)]
+	case v <= 0xffff:
+		return []byte{0xfe, 0, 0, byte(v >> 8), byte(v)}
+	case v <= 0xffffffff:
+		return []byte{0xff, 0, 0, 0, 0, byte(v >> 24), byte(v >> 16), byte(v >> 8), byte(v)}
+	}
+	return verifC10BigSize(v)
+}
+
+// verifC10ExtMutants derives hostile extensions from the canonical extension
+// e (records recs). Only the extension is touched.
+func verifC10ExtMutants(r *verifRng, e []byte, recs []verifC10ExtRec) (out [][]byte, classes []string) {
+	add := func(class string, x []byte) {
+		out = append(out, x)
+		classes = append(classes, "ext-"+class)
+	}
+	cat := func(parts ...[]byte) []byte {
+		var x []byte
+		for _, p := range parts {
+			x = append(x, p...)
+		}
+		return x
+	}
+	for i, rc := range recs {
+		if len(recs) > 6 && !r.Chance(6, len(recs)) {
+			continue
+		}
+		l := uint64(rc.End - rc.ValOff)
+		pre, typ, val, post := e[:rc.Off], e[rc.Off:rc.LenOff], e[rc.ValOff:rc.End], e[rc.End:]
+		// declared length of record i: -1, +1, 0, large, non-minimal
+		for _, nl := range []uint64{l - 1, l + 1, 0, l + 4, 8, 0xfc, 0xfd, 65535, 65536, 1 << 32} {
+			if nl == l || (l == 0 && nl == l-1) {
+				continue
+			}
+			add("len", cat(pre, typ, verifC10BigSize(nl), val, post))
+		}
+		add("len-nonminimal", cat(pre, typ, verifC10BigSizeWide(l, r), val, post))
+		add("type-nonminimal", cat(pre, verifC10BigSizeWide(rc.T, r), e[rc.LenOff:]))
+		// duplicate record i
+		add("dup", cat(e[:rc.End], e[rc.Off:rc.End], post))
+		// truncate inside record i
+		if rc.End > rc.Off+1 {
+			add("trunc", append([]byte{}, e[:rc.Off+1+r.Intn(rc.End-rc.Off-1)]...))
+		}
+		// swap with the next record
+		if i+1 < len(recs) {
+			nx := recs[i+1]
+			add("swap", cat(pre, e[nx.Off:nx.End], e[rc.Off:rc.End], e[nx.End:]))
+		}
+		// value mutation with the framing intact (stays canonical)
+		if len(val) > 0 {
+			v2 := append([]byte{}, val...)
+			v2[r.Intn(len(v2))] ^= 1 << uint(r.Intn(8))
+			add("value", cat(pre, typ, e[rc.LenOff:rc.ValOff], v2, post))
+		}
+	}
+	last := recs[len(recs)-1]
+	// append a record with a lower / equal type
+	for _, t := range []uint64{0, last.T, last.T - 1, recs[0].T} {
+		if t > last.T {
+			continue
+		}
+		v := r.Bytes(r.Intn(4))
+		add("lower-type", cat(e, verifC10BigSize(t), verifC10BigSize(uint64(len(v))), v))
+	}
+	// append a well-formed higher unknown odd record (stays canonical)
+	{
+		t := (last.T + 1 + r.U64n(50)) | 1
+		if t > last.T {
+			v := r.Bytes(r.Intn(6))
+			add("higher-type", cat(e, verifC10BigSize(t), verifC10BigSize(uint64(len(v))), v))
+		}
+	}
+	// dangling bytes
+	add("dangling", cat(e, []byte{byte(1 + r.Intn(250))}))
+	return out, classes
+}
+
+// verifC10OpaqueExt lists the message types whose Decode on the pinned tree
+// keeps the trailing extension as opaque bytes without parsing it as a TLV
+// stream (measured with the duplicate-record probe on HEAD 9270a21). For
+// these ext_accept_implies_canonical is recorded as a diagnostic.
+var verifC10OpaqueExt = map[MessageType]bool{
+	MsgStfu: true, MsgDynReject: true, MsgUpdateFailHTLC: true, MsgUpdateFee: true,
+	MsgUpdateFailMalformedHTLC: true, MsgAnnounceSignatures: true,
+	MsgQueryShortChanIDs: true, MsgReplyShortChanIDsEnd: true, MsgKickoffSig: true,
+}
+
+// verifC10BigSizeRecs lists, per message, the typed extension records that the
+// pinned tree decodes through tlv.DBigSize (BigSizeT / MilliSatoshi records).
+// It is used ONLY to attribute an ext_accept_implies_canonical mismatch to the
+// already recorded finding KF-C10-1 (tlv.DBigSize ignores the declared record
+// length); the verdict itself never depends on it.
+var verifC10BigSizeRecs = map[MessageType]map[uint64]bool{
+	MsgDynPropose:     {0: true, 2: true, 4: true, 6: true},
+	MsgDynCommit:      {0: true, 2: true, 4: true, 6: true},
+	MsgChannelUpdate2: {12: true, 14: true},
+}
+
+// verifC10ZeroRecs: typed records decoded by lnwire's booleanDecoder, which
+// accepts a declared length of 1 without consuming the value byte (KF-C10-5).
+// Attribution only.
+var verifC10ZeroRecs = map[MessageType]map[uint64]bool{
+	MsgChannelUpdate2: {8: true},
+}
+
+// verifC10WalkLenientBigSize is the reference walker with the KF-C10-1 model:
+// the listed record types consume exactly one minimal BigSize whatever their
+// declared length says.
+//
+// zero lists record types modelled as "declared length 0 or 1, no value byte
+// consumed" (lnwire.TrueBoolean's decoder on the pinned tree, finding
+// KF-C10-5); pass nil to model KF-C10-1 alone.
+func verifC10WalkLenientBigSize(e []byte, big, zero map[uint64]bool) bool {
+	pos := 0
+	var last uint64
+	first := true
+	for pos < len(e) {
+		t, n, ok := verifC10WalkBigSize(e[pos:])
+		if !ok || (!first && t <= last) {
+			return false
+		}
+		pos += n
+		l, m, ok := verifC10WalkBigSize(e[pos:])
+		if !ok || l > 65535 {
+			return false
+		}
+		pos += m
+		if zero[t] {
+			if l > 1 {
+				return false
+			}
+		} else if big[t] {
+			_, k, ok := verifC10WalkBigSize(e[pos:])
+			if !ok {
+				return false
+			}
+			pos += k
+		} else {
+			if l > uint64(len(e)-pos) {
+				return false
+			}
+			pos += int(l)
+		}
+		last, first = t, false
+	}
+	return true
+}
+
+// verifC10RecordsDropped reports whether out is in with one or more whole
+// records removed (everything else byte-identical).
+func verifC10RecordsDropped(in, out []byte) bool {
+	ri, ok1, _ := verifC10WalkTLV(in)
+	ro, ok2, _ := verifC10WalkTLV(out)
+	if !ok1 || !ok2 || len(ro) >= len(ri) {
+		return false
+	}
+	j := 0
+	for _, rc := range ri {
+		if j < len(ro) && bytes.Equal(in[rc.Off:rc.End], out[ro[j].Off:ro[j].End]) {
+			j++
+		}
+	}
+	return j == len(ro)
+}
+
+// checkExt runs the extension oracles on F||E' for every mutant E'.
+func (h *verifC10H) checkExt(r *verifRng, tg verifC10Target, b0 []byte) {
+	vc := h.vc
+	off := verifC10ExtBoundary(b0)
+	if off < 0 {
+		vc.Count("ext_no_boundary", 1)
+		return
+	}
+	f, e := b0[:off], b0[off:]
+	recs, _, _ := verifC10WalkTLV(e)
+	if len(recs) == 0 {
+		vc.Count("ext_empty", 1)
+		// still probe an extension made of harness records only
+		e = verifC10TLVStream(r, 1+r.Intn(3), 20)
+		recs, _, _ = verifC10WalkTLV(e)
+		if len(recs) == 0 {
+			return
+		}
+	}
+	vc.Count("ext_values", 1)
+	muts, classes := verifC10ExtMutants(r, e, recs)
+	for i, e2 := range muts {
+		b := append(append([]byte{}, f...), e2...)
+		if len(b) > 65535 {
+			continue
+		}
+		class := classes[i]
+		var (
+			m1  any
+			err error
+		)
+		if vc.Only >= 0 {
+			vc.emit(map[string]any{"t": "case", "i": h.i, "input": h.witness(tg, class, b)})
+		}
+		if vc.Guard("no_panic", tg.Name+"|decode", h.witness(tg, class, b), func() {
+			m1, err = tg.decode(b)
+		}) {
+			continue
+		}
+		vc.Count("decodes", 1)
+		vc.Count("ext_decodes", 1)
+		_, canon, rule := verifC10WalkTLV(e2)
+		if err != nil {
+			vc.Count("rejected", 1)
+			vc.Sig(verifJoin(tg.Name, class, "rej"))
+			continue
+		}
+		vc.Count("accepted", 1)
+		vc.Sig(verifJoin(tg.Name, class, "acc"))
+		actual := verifC10Actual(tg, m1)
+		vc.Count("ext_accept_implies_canonical_evals", 1)
+		if !canon {
+			wit := h.witness(tg, class, b)
+			wit["extension_offset"] = off
+			wit["extension"] = verifHex(e2[:min(len(e2), 1024)])
+			detail := fmt.Sprintf("ReadMessage accepted F||E although the reference walker rejects the "+
+				"extension E (rule %s); E=%s", rule, verifHex(e2[:min(len(e2), 256)]))
+			switch {
+			case verifC10OpaqueExt[tg.Msg]:
+				vc.Count("ext_opaque_not_validated:"+actual, 1)
+				vc.Diag("ext_opaque_not_validated", actual+"|"+rule)
+			case verifC10ZeroRecs[tg.Msg] != nil &&
+				!verifC10WalkLenientBigSize(e2, verifC10BigSizeRecs[tg.Msg], nil) &&
+				verifC10WalkLenientBigSize(e2, verifC10BigSizeRecs[tg.Msg],
+					verifC10ZeroRecs[tg.Msg]):
+
+				// attributed to KF-C10-5 (needs the TrueBoolean model)
+				key := actual + "|TrueBoolean-declared-length-not-consumed"
+				vc.Count("attributed:"+key, 1)
+				h.attrib[key]++
+				if h.attrib[key] <= 2 {
+					vc.Violation("ext_accept_implies_canonical", key, detail, wit)
+				}
+			case verifC10BigSizeRecs[tg.Msg] != nil &&
+				verifC10WalkLenientBigSize(e2, verifC10BigSizeRecs[tg.Msg], nil):
+
+				// attributed to KF-C10-1; reported a few times per
+				// shard only (the runtime keeps 50 violations)
+				key := actual + "|DBigSize-ignores-record-length"
+				vc.Count("attributed:"+key, 1)
+				h.attrib[key]++
+				if h.attrib[key] <= 2 {
+					vc.Violation("ext_accept_implies_canonical", key, detail, wit)
+				}
+			default:
+				vc.Violation("ext_accept_implies_canonical", actual+"|"+rule, detail, wit)
+			}
+			continue
+		}
+		// accepted and canonical: decode-then-encode should reproduce it
+		vc.Count("ext_reencode_evals", 1)
+		b1, _, err := tg.encode(m1)
+		if err != nil || !bytes.Equal(b1, b) {
+			wit := h.witness(tg, class, b)
+			wit["extension_offset"] = off
+			kind := "other"
+			if err == nil && len(b1) >= off && bytes.Equal(b1[:off], f) &&
+				verifC10RecordsDropped(e2, b1[off:]) {
+
+				kind = "unknown-records-dropped"
+			}
+			vc.Count("ext_reencode_diff:"+actual+"|"+kind, 1)
+			vc.Diag("ext_reencode_reproduces_input:"+kind, actual+"|"+class+": "+fmt.Sprintf(
+				"accepted, extension canonical per the reference, but re-encoding differs (err=%v): "+
+					"in E=%s out=%s", err, verifHex(e2[:min(len(e2), 256)]),
+				verifHex(b1[min(off, len(b1)):min(len(b1), off+256)])))
+			_ = wit
+		}
+	}
+}
+
 // verifC10RawLens are the raw-bytes lengths of the design (body lengths; the
 // 2-byte header is added on top where it fits in 65535).
 var verifC10RawLens = []int{0, 1, 2, 3, 4, 5, 6, 7, 8, 9, 10, 12, 16, 20, 24, 31, 32, 33, 34,
@@ -978,6 +1399,13 @@ func (h *verifC10H) runCase(r *verifRng, tg verifC10Target, tgs []verifC10Target
 			h.checkBytes(tg, class, b, true)
 		}
 	}
+	// Extension mutants: only the TLV extension of each valid encoding is
+	// mutated (wire messages only).
+	if tg.Kind == 0 {
+		for _, b0 := range valids {
+			h.checkExt(r, tg, b0)
+		}
+	}
 	// Truncation at every offset (covers every field boundary) of one valid
 	// encoding.
 	if len(valids) > 0 {
@@ -1027,6 +1455,7 @@ func TestVerifC10(t *testing.T) {
 	}
 	vc.Note("message_types", fmt.Sprint(nmsg))
 
+	attrib := map[string]int{}
 	rounds := vc.N(12, 400) // every target is visited this many times
 	nValid, nMut := 4, 40
 	total := rounds * len(tgs)
@@ -1038,8 +1467,8 @@ func TestVerifC10(t *testing.T) {
 		r := vc.Rng(i)
 		vc.Case(i, map[string]any{"target": tg.Name, "valid_values": nValid,
 			"mutants_per_value": nMut,
-			"regen": "inputs regenerate deterministically from (seed, case); replay this case to log each input"})
-		h := &verifC10H{vc: vc, i: i}
+			"regen":             "inputs regenerate deterministically from (seed, case); replay this case to log each input"})
+		h := &verifC10H{vc: vc, i: i, attrib: attrib}
 		h.runCase(r, tg, tgs, nValid, nMut)
 		if i < len(tgs) && i%17 == 0 {
 			vc.Sample(map[string]any{"case": i, "target": tg.Name})
